@@ -724,6 +724,9 @@ func (ip *Interp) keyEq(m *Map, a, b Value) *Term {
 }
 
 func (ip *Interp) mapFind(m *Map, key Value) int {
+	if ip.W != nil && ip.W.sched != nil {
+		ip.W.sched.accessMap(ip, m, false)
+	}
 	if m == nil {
 		return -1
 	}
@@ -835,6 +838,9 @@ func (ip *Interp) rangeIter(x Value, t types.Type) iter {
 		return &strIter{s: x}
 	case *Map:
 		it := &mapIter{m: x}
+		if x != nil && ip.W != nil && ip.W.sched != nil {
+			ip.W.sched.accessMap(ip, x, false)
+		}
 		if x != nil {
 			it.keys = append([]Value(nil), x.Keys...)
 			it.order = ip.W.mapOrder(len(it.keys))
